@@ -16,6 +16,14 @@ side never has unread or still-arriving data):
   e  like a, but the sender asks for a half close and a full close back to back while its writes are
      still buffered: loseWriteConnection(); loseConnection() (variant 1: one more write between
      the two; variant 2: the two calls in the other order) - the peer must still get every byte.
+  f  request/ack: one side streams a request larger than one recv(65536) quickly; the other side's
+     protocol is IHalfCloseableProtocol, acknowledges every dataReceived with a short write and, when
+     the announced byte count is complete, writes a final reply and calls loseConnection() - all
+     from inside dataReceived, so the transport is readable and writable in the same reactor event.
+     Nobody half-closes here: a read/writeConnectionLost delivered while the peer has neither
+     closed nor half-closed is reported (`halfclose-notification-without-half-close`).
+Some kind-a specs use the "bigtail" pattern: one write of 256 KiB..1 MiB (a multiple of SEND_LIMIT),
+a short trailer one reactor turn later, then loseConnection(), default socket buffers.
 Write ops: write(n) incl. n=0, writeSequence([..]) incl. empty chunks/empty list, delays (writes
 issued from callLater), single writes up to the whole payload.
 
@@ -23,7 +31,7 @@ Monitor (per protocol, at the application boundary): every dataReceived (running
 incremental comparison with the peer's generated payload -> first differing offset), every
 connectionLost(reason), anything delivered after connectionLost.  Oracle (decided in the parent,
 which regenerates the payloads and re-checks the digests independently):
-  a-c,e  received == sent (both directions); exactly one connectionLost per protocol, reason
+  a-c,e,f  received == sent (both directions; in f "sent" by the acknowledging side is what it issued); exactly one connectionLost per protocol, reason
        ConnectionDone, nothing after it;
   d    received is a prefix of sent (both directions); exactly one connectionLost per protocol; the
        aborting side's reason is ConnectionAborted (documented meaning of error.ConnectionAborted; DESIGN C15); the
@@ -43,7 +51,7 @@ import random
 LEVEL = "exploration"
 ENGINE = "E6-reactorproc"
 TECHNIQUE = "runtime monitoring: received-stream == generated payload (digest + incremental compare) and connectionLost exactly-once/reason checks on real loopback sockets per reactor"
-RULE = ("one case = (reactor class, connection spec); a spec = scenario kind a/b/c/d/e, closing/aborting role, per-direction "
+RULE = ("one case = (reactor class, connection spec); a spec = scenario kind a/b/c/d/e/f, closing/aborting role, per-direction "
         "payload (0..256 KiB quick, 0..4 MiB thorough) cut into generated write/writeSequence/delay ops, socket buffer "
         "sizes, receiver pause plans; the same specs run on all four reactors; distinct by (reactor, spec); "
         "non-trivial = at least one byte sent in some direction")
@@ -55,9 +63,9 @@ ASSUMPTIONS = [
 SHARDS = {"quick": 4, "thorough": 16}
 FLOORS = {
     "quick": {"conns_decided": 40, "connectionlost_observed": 80, "bytes_received": 1000000, "decided_select": 10, "decided_poll": 10,
-              "decided_epoll": 10, "decided_asyncio": 10, "kind_a": 4, "kind_b": 4, "kind_c": 4, "kind_d": 4, "kind_e": 4, "conns_exceeding_socket_buffers": 12},
+              "decided_epoll": 10, "decided_asyncio": 10, "kind_a": 4, "kind_b": 4, "kind_c": 4, "kind_d": 4, "kind_e": 4, "kind_f": 4, "acks_written": 8, "conns_exceeding_socket_buffers": 12},
     "thorough": {"conns_decided": 100, "connectionlost_observed": 200, "bytes_received": 10000000, "decided_select": 25, "decided_poll": 25,
-                 "decided_epoll": 25, "decided_asyncio": 25, "kind_a": 8, "kind_b": 8, "kind_c": 8, "kind_d": 8, "kind_e": 8, "conns_exceeding_socket_buffers": 30},
+                 "decided_epoll": 25, "decided_asyncio": 25, "kind_a": 8, "kind_b": 8, "kind_c": 8, "kind_d": 8, "kind_e": 8, "kind_f": 8, "acks_written": 30, "conns_exceeding_socket_buffers": 30},
 }
 WATCHDOG_S = {"quick": 600, "thorough": 3000}
 READY = True
@@ -205,6 +213,16 @@ def scenario(reactor, inp):
                 reactor.callLater(dur / 1000.0, self.resume)
             if self.kind == "c":
                 self.maybe_close()
+            elif self.kind == "f" and self.role == self.spec["closer"] and not self.closing:
+                # request/ack: acknowledge every chunk; when the announced request is complete send
+                # the final reply and close - all from inside dataReceived, with acks still queued
+                if self.rx < len(self.expect):
+                    if self.out_pos + self.spec["ack_len"] + self.spec["final_len"] <= len(self.out):
+                        self.transport.write(self.take(self.spec["ack_len"]))
+                else:
+                    self.transport.write(self.take(self.spec["final_len"]))
+                    self.closing = True
+                    self.transport.loseConnection()
             elif self.kind == "d" and self.role != self.spec["closer"]:
                 thr = self.spec.get("abort_when_peer_rx")
                 other = self.conn.sides[self.spec["closer"]]
@@ -220,9 +238,23 @@ def scenario(reactor, inp):
             self.lost.append([reason.type.__name__ if reason.type else "?", str(reason.value)[:120]])
             self.conn.side_lost(self)
 
+        def sent_len(self):
+            return self.out_pos if (self.kind == "f" and self.role == self.spec["closer"]) else len(self.out)
+
         def half(self, which):
             if self.lost:
                 self.after_lost[which] += 1
+                return
+            if self.kind == "f":
+                # nobody half-closes in this scenario: the peer only streams and waits for the close
+                peer = self.conn.sides["server" if self.role == "client" else "client"]
+                if not (peer.lost or peer.closing or peer.aborted or peer.half_requested) and self.conn.spurious is None:
+                    self.conn.spurious = {"side": self.role, "notification": which, "rx": self.rx, "closing": self.closing,
+                                          "peer_tx_issued": peer.out_pos}
+                    for x in self.conn.sides.values():  # tidy up so the run can end; the verdict is already fixed
+                        if not x.lost:
+                            x.aborted = True
+                            x.transport.abortConnection()
                 return
             if which == "readConnectionLost":
                 self.read_closed = True
@@ -249,8 +281,9 @@ def scenario(reactor, inp):
     class Conn:
         def __init__(self, spec):
             self.spec = spec
-            cls = HalfSide if spec["kind"] == "b" else Side
-            self.sides = {"client": cls(self, "client"), "server": cls(self, "server")}
+            self.spurious = None
+            self.sides = {r: (HalfSide if spec["kind"] == "b" or (spec["kind"] == "f" and r == spec["closer"]) else Side)(self, r)
+                          for r in ("client", "server")}
             self.finished = False
             self.failed = None
             self.never_lost = None
@@ -301,7 +334,9 @@ def scenario(reactor, inp):
             if len(a) != 1 or not b[0].made:
                 return
             a, b = a[0], b[0]
-            complete = a.rx == len(b.out) and b.rx == len(a.out) and b.ops_done and a.ops_done
+            complete = a.rx == b.sent_len() and b.rx == a.sent_len() and b.ops_done and a.ops_done
+            if self.spec["kind"] == "f" and not self.sides[self.spec["closer"]].closing:
+                complete = False
             if not complete:
                 return
             if self.complete_since is None:
@@ -311,7 +346,7 @@ def scenario(reactor, inp):
                 self.finish()
 
         def report(self, stuck=False):
-            return {"id": self.spec["id"], "finished": self.finished and not stuck, "failed": self.failed, "never_lost": self.never_lost,
+            return {"id": self.spec["id"], "finished": self.finished and not stuck, "failed": self.failed, "never_lost": self.never_lost, "spurious": self.spurious,
                     "client": self.sides["client"].report(), "server": self.sides["server"].report()}
 
     def pump():
@@ -414,7 +449,7 @@ def gen_pauses(rng, total):
 
 
 def gen_spec(rng, cid, quick):
-    kind = "abcde"[cid % 5] if rng.random() < 0.8 else rng.choice("abcde")
+    kind = "abcdef"[cid % 6] if rng.random() < 0.8 else rng.choice("abcdef")
     closer = rng.choice(["client", "server"])
     spec = {"id": cid, "kind": kind, "closer": closer, "seed": rng.randrange(2 ** 40),
             "sndbuf": rng.choice([4096, 8192, 16384]), "rcvbuf": rng.choice([4096, 8192, 16384])}
@@ -429,8 +464,30 @@ def gen_spec(rng, cid, quick):
             tot[closer] = max(tot[closer], rng.randint(40000, 262144))  # a large write still pending at the close
     if kind == "d" and rng.random() < 0.5:
         tot["server" if closer == "client" else "client"] = 0
-    spec["c2s"] = {"total": tot["client"], "ops": gen_ops(rng, tot["client"])}
-    spec["s2c"] = {"total": tot["server"], "ops": gen_ops(rng, tot["server"])}
+    other = "server" if closer == "client" else "client"
+    custom = {}
+    if kind == "f":
+        # request/ack: `closer` is the acknowledging, half-closeable side; the other side streams a
+        # request larger than one recv(65536) quickly (few writes, no delays, mostly default buffers)
+        # mostly two recv()s worth: the final chunk then tends to arrive in the event in which the
+        # acknowledgement of the first chunk is still waiting to be written (readable AND writable)
+        tot[other] = rng.randint(66000, 131000) if rng.random() < 0.65 else rng.randint(131000, 400000)
+        tot[closer] = 32768  # tape the acknowledgements and the final reply are cut from
+        spec["ack_len"], spec["final_len"] = rng.randint(4, 64), rng.randint(1, 200)
+        cuts = sorted(rng.randint(0, tot[other]) for _ in range(rng.choice([0, 0, 1, 2])))
+        custom[other] = [["w", b - a] for a, b in zip([0] + cuts, cuts + [tot[other]])]
+        custom[closer] = []
+        if rng.random() < 0.8:
+            spec["sndbuf"] = spec["rcvbuf"] = 0
+    if kind == "a" and ((cid // 6) % 2 == 0 or rng.random() < 0.3):
+        # one whole-SEND_LIMIT-multiple write, a short trailer one reactor turn later, then the close
+        big, trailer = rng.choice([262144, 262144, 262144, 524288, 1048576]), rng.randint(1, 2000)
+        tot[closer] = big + trailer
+        custom[closer] = [["w", big], ["d", 0], ["w", trailer]]
+        spec["sndbuf"] = spec["rcvbuf"] = 0
+        spec["bigtail"] = True
+    spec["c2s"] = {"total": tot["client"], "ops": custom.get("client") if "client" in custom else gen_ops(rng, tot["client"])}
+    spec["s2c"] = {"total": tot["server"], "ops": custom.get("server") if "server" in custom else gen_ops(rng, tot["server"])}
     if kind == "d":
         mine = spec["c2s"] if closer == "client" else spec["s2c"]
         nw = len([o for o in mine["ops"] if o[0] != "d"])
@@ -440,6 +497,8 @@ def gen_spec(rng, cid, quick):
             spec["abort_after_ops"] = nw
             spec["abort_when_peer_rx"] = rng.randint(1, mine["total"])
     spec["pauses"] = {"client": gen_pauses(rng, tot["server"]), "server": gen_pauses(rng, tot["client"])}
+    if kind == "f" or spec.get("bigtail"):
+        spec["pauses"] = {"client": [], "server": []}
     return spec
 
 
@@ -447,8 +506,8 @@ def plan(ctx):
     """[(job index, reactor, [spec,...])]; the same spec batches go to every reactor."""
     from vf.engines.reactorproc import REACTORS
 
-    nconn = ctx.size(24, 416)
-    per_batch = 24 if ctx.quick else 52
+    nconn = ctx.size(36, 416)
+    per_batch = 36 if ctx.quick else 52
     specs = [gen_spec(ctx.case_rng("conn", i), i, ctx.quick) for i in range(nconn)]
     batches = [specs[i:i + per_batch] for i in range(0, nconn, per_batch)]
     jobs = []
@@ -477,17 +536,23 @@ def judge_conn(ctx, name, spec, rep):
         ctx.count("conns_default_socket_buffers")
     elif max(spec["c2s"]["total"], spec["s2c"]["total"]) > 4 * spec["sndbuf"]:
         ctx.count("conns_exceeding_socket_buffers")
-    for role, peer, sent in (("client", "server", spec["s2c"]["total"]), ("server", "client", spec["c2s"]["total"])):
+    if spec.get("bigtail"):
+        ctx.count("bigtail_patterns")
+    for role, peer, tape in (("client", "server", spec["s2c"]["total"]), ("server", "client", spec["c2s"]["total"])):
         r = rep[role]
+        # kind f: what the acknowledging side sent depends on how the request was chunked
+        sent = rep[peer]["tx_issued"] if (kind == "f" and peer == spec["closer"]) else tape
         wit = dict(wit0, receiver=role, report=r, peer_report={k: rep[peer][k] for k in ("tx_total", "tx_issued", "ops_done", "aborted", "lost")})
         ctx.count("bytes_received", r["rx"])
         ctx.count("dataReceived_calls", r["n_dataReceived"])
         ctx.count("receiver_pauses", r["pauses"])
+        if kind == "f" and role == spec["closer"]:
+            ctx.count("acks_written", max(0, r["tx_issued"] - spec["final_len"]) // spec["ack_len"])
         ctx.count("connectionlost_observed", len(r["lost"]))
         for why, _ in r["lost"]:
             ctx.seen("reasons_kind_" + kind, why)
         # the parent's own expectation, independent of the child's incremental comparison
-        payload = gen_data(spec["seed"], peer, sent)
+        payload = gen_data(spec["seed"], peer, tape)[:sent]
         want_sha = hashlib.sha256(payload[:r["rx"]]).hexdigest()
         prefix_ok = r["rx"] <= sent and r["sha256"] == want_sha
         if r["first_diff"] is None and not prefix_ok and r["rx"] <= sent:
@@ -546,6 +611,14 @@ def judge(ctx, name, batch, out):
         spec = by_id[rep["id"]]
         if rep["failed"]:
             ctx.inconclusive("C15 %s: connect failed for conn %s: %s" % (name, rep["id"], rep["failed"]))
+            continue
+        if rep.get("spurious"):
+            ctx.count("conns_decided")
+            ctx.count("decided_" + name)
+            ctx.evaluated()
+            ctx.violation("halfclose-notification-without-half-close", "a protocol was told %s although its peer had neither closed nor half-closed "
+                          "(the loss of the connection was reported through the wrong notification)" % rep["spurious"]["notification"],
+                          {"reactor": name, "spec": spec, "spurious": rep["spurious"], "client": rep["client"], "server": rep["server"]})
             continue
         if rep.get("never_lost"):
             nl = rep["never_lost"]
